@@ -37,6 +37,8 @@ func c05extraCtx() []gen.Ctx {
 	return []gen.Ctx{
 		tmpl("lazy-force", 1, `((fn [#z] (force #z)) $1)`),
 		tmpl("lazy-force2", 1, `((fn [#z] (list (force #z) (force #z))) $1)`),
+		tmpl("template-unquote", 1, `(syntaxQuote (a (unquote $1) b))`),
+		tmpl("template-splice", 1, `(syntaxQuote [1 (unquote (list $1 2))])`),
 		tmpl("lazy-closure", 1, `(begin (def pz ((fn [#z] (fn [] (force #z))) $1)) (pz))`),
 		tmpl("lazy-closure-twice", 1, `(begin (def pz ((fn [#z] (fn [] (force #z))) $1)) (list (pz) (pz)))`),
 		tmpl("fn-in-for", 1, `(begin (defn k [x] $1) (for [(def i 0) (< i 2) (set i (+ i 1))] (k i)) a)`),
